@@ -24,7 +24,7 @@ func debtOf(w *World, sp string) sdk.Int {
 
 // C07/C08/C14 ShardRelease: pays shard.Pledge minus repaid debt to the shard's provider only, lowers the
 // provider's counters by exactly this shard, settles pending block reward first.
-func Ob_C07C08C14_ShardRelease() {
+func Ob_C02C07C08C14_ShardRelease() {
 	w := NewWorld()
 	var s ordertypes.Shard
 	sym.Fill("shard", &s)
@@ -68,7 +68,7 @@ func Ob_C07C08C14_ShardRelease() {
 
 // C07/C14 ShardPledge: takes from the provider exactly what it writes into shard.Pledge (or records the
 // shortfall as debt for renewed shards), raises the counters by exactly this shard, needs free capacity.
-func Ob_C07C08C14_ShardPledge() {
+func Ob_C02C07C08C14_ShardPledge() {
 	w := NewWorld()
 	var s ordertypes.Shard
 	var price sdk.DecCoin
